@@ -92,6 +92,21 @@ TUniverse == SUBSET TLevels
 TAgree == \A D \in TUniverse, s \in TSites : ImplBind(D, s) = LexBind(D, s)
 TCases == {[d |-> D, sites |-> {[id |-> s.id, bind |-> LexBind(D, s)] : s \in TSites}] : D \in TUniverse}
 
+(* ---------------------------------------------------------------- gantt charts (in the system block)
+   gantt { G1(n : ..) : for (n : ..) <140> -> <141>, <142> -> 1;  G2 : <143> -> 1; }
+   a line may have select-like parameters (gline), an entry may bind variables of its own with `for` (gentry); the entry's binders
+   are in scope in its two expressions only, the line's parameters in every entry of the line.                       *)
+GLevels == {"global", "gline", "gentry"}
+GSites == {
+  S(140, <<"global", "gline", "gentry">>, {"global", "gline", "gentry"}, FALSE),     \* predicate of the entry that has the binder
+  S(141, <<"global", "gline", "gentry">>, {"global", "gline", "gentry"}, FALSE),     \* its mapping expression
+  S(142, <<"global", "gline">>, {"global", "gline"}, FALSE),                         \* predicate of the NEXT entry of the same line: the first entry's binder is gone
+  S(143, <<"global">>, {"global"}, FALSE) }                                          \* an entry of the NEXT line: that line's parameter is gone too
+GUniverse == SUBSET GLevels
+GAgree == \A D \in GUniverse, s \in GSites : ImplBind(D, s) = LexBind(D, s)
+GCases == {[d |-> D, sites |-> {[id |-> s.id, bind |-> LexBind(D, s)] : s \in GSites}] : D \in GUniverse}
+ASSUME \A cse \in GCases : PrintT(<<"EMIT", ToJson([gd |-> SetToSeq(cse.d), gagree |-> GAgree, sites |-> SetToSeq(cse.sites)])>>)
+
 (* ---------------------------------------------------------------- process-qualified names: P.x with P's arguments substituted
    Template T(a, b) declares va : int[0,a], vb : int[0,b]. An instance maps parameters to arguments; an argument is a
    constant or a parameter of the instance itself (forwarding through partial instantiation). Value(m, p) follows the
